@@ -60,9 +60,26 @@ NEEDED = {
  "C16c-string-iter-stops-at-fffd": "U+FFFD in iterated strings",
  "C19c-dollar-key-collision": "map objects with X, $X and $$X keys",
  "C20c-run-prepares-itself": "runs before any Prepare (Run fails exactly when Execute does)",
+ # round 4
+ "C01d-constant-pool-number-text": "twin constants: the same number written as the other kind earlier in the script",
+ "C04d-field-names-by-type-name": "part TestC04SameNamedTypes",
+ "C05d-condition-drops-double-bang": "positions !! in if / while / ternary",
+ "C05d-ternary-true-false-folded": "truth-spelling idioms observed type-sensitively",
+ "C06d-user-function-before-builtin": "part TestC06BuiltinWins (host functions registered before/after Prepare, after a run)",
+ "C07d-calls-leak-on-depth-error": "part TestC07Wear: runaway recursion, good depth at the limit",
+ "C08d-regcache-fill-under-rlock": "belongs to C11 (needs two goroutines)",
+ "C09d-run-returns-holding-mutex": "three runs after the cancellation, each under the watchdog",
+ "C11d-regcache-reset-outside-lock": "workloads with thousands of run-time patterns",
+ "C14d-lexer-shared-scratch": "belongs to C11 (needs concurrent Prepare calls)",
+ "C14d-backslash-crlf-rewritten": "CR LF sequences, also behind a backslash, in string texts",
+ "C16d-string-hashkey-32bit": "string keys whose 32-bit FNV-1a values collide",
+ "C17d-sort-result-in-pool": "profile sorttwice: several sort/reverse results alive at once",
+ "C19d-shared-map-visited-set": "one nested host map reachable under several keys",
+ "C19d-float-hashkey-bits": "NaN keys with different bit patterns, the two zeros",
+ "C20d-cli-strips-bom": "odd first characters (BOM, NBSP, NUL, ...) in CLI scripts",
 }
 rows = open(os.path.join(ROOT, "seeded", "MATRIX.md")).read().strip().splitlines()[2:]
-lines = ["| seeded change (suffix b = round 2, c = round 3) | what it does | caught by (quick tier, seed 1) | generator/oracle work it needed |", "|---|---|---|---|"]
+lines = ["| seeded change (suffix b = round 2, c = round 3, d = round 4) | what it does | caught by (quick tier, seed 1) | generator/oracle work it needed |", "|---|---|---|---|"]
 for r in rows:
     sid, prop, res = [c.strip() for c in r.strip("|").split("|")]
     title = ""
